@@ -50,6 +50,7 @@ type Op struct {
 	P int    `json:"p,omitempty"` // perturbation before the op
 	T int    `json:"t,omitempty"` // flush/shutdown: ctx timeout in microseconds, 0 none, -1 cancelled, -2/-3/-6 cancelled 0.3/0.6/1.5 ms after the call was issued
 	M bool   `json:"m,omitempty"` // emit: mutate the caller's record right after Emit returned
+	C int    `json:"c,omitempty"` // emit: context handed to Emit: 0 live, 1 already cancelled, 2 deadline already expired (a record is emitted all the same)
 }
 
 // Case is one generated program.
@@ -93,7 +94,7 @@ func gen(t *rapid.T) Case {
 				budget -= n
 				var ops []Op
 				for i := 0; i < n; i++ {
-					ops = append(ops, Op{K: "emit", P: rapid.IntRange(0, 2).Draw(t, "p"), M: rapid.Bool().Draw(t, "m")})
+					ops = append(ops, Op{K: "emit", P: rapid.IntRange(0, 2).Draw(t, "p"), M: rapid.Bool().Draw(t, "m"), C: genEmitCtx(t)})
 				}
 				phase = append(phase, ops)
 			}
@@ -108,6 +109,7 @@ func gen(t *rapid.T) Case {
 					case k < 15:
 						op.K = "emit"
 						op.M = rapid.Bool().Draw(t, "m")
+						op.C = genEmitCtx(t)
 					case k < 18:
 						op.K = "flush"
 						op.T = rapid.SampledFrom([]int{0, 0, 0, 50, 5000, -1, -2, -3, -6}).Draw(t, "ctx")
@@ -319,17 +321,17 @@ func runOnce(c Case) ([]vk.Violation, map[string]bool) {
 		sdklog.WithExportTimeout(time.Duration(c.ExportTimeoutUs)*time.Microsecond),
 		sdklog.WithExportBufferSize(c.Buffer))
 
-	var emit func(id int, mutate bool)
+	var emit func(id int, mutate bool, ctxKind int)
 	var flush, shutdown func(context.Context) error
 	if c.ViaProvider {
 		lp := sdklog.NewLoggerProvider(sdklog.WithProcessor(bp), sdklog.WithAttributeCountLimit(-1), sdklog.WithAttributeValueLengthLimit(-1))
 		lg := lp.Logger("c06")
-		emit = func(id int, mutate bool) {
+		emit = func(id int, mutate bool, ctxKind int) {
 			var r log.Record
 			r.SetBody(log.StringValue("rec:" + strconv.Itoa(id)))
 			kvs := attrsFor(id)
 			r.AddAttributes(kvs...)
-			lg.Emit(context.Background(), r)
+			lg.Emit(emitCtx(ctxKind), r)
 			if mutate {
 				for i := range kvs {
 					kvs[i] = log.String("mutated", "x")
@@ -340,12 +342,12 @@ func runOnce(c Case) ([]vk.Violation, map[string]bool) {
 		}
 		flush, shutdown = lp.ForceFlush, lp.Shutdown
 	} else {
-		emit = func(id int, mutate bool) {
+		emit = func(id int, mutate bool, ctxKind int) {
 			r := logtest.RecordFactory{
 				Body: log.StringValue("rec:" + strconv.Itoa(id)), Attributes: attrsFor(id),
 				AttributeCountLimit: -1, AttributeValueLengthLimit: -1,
 			}.NewRecord()
-			_ = bp.OnEmit(context.Background(), &r)
+			_ = bp.OnEmit(emitCtx(ctxKind), &r)
 			if mutate {
 				// overwrite in place: k6 lives in the overflow slice, k0 inline
 				r.AddAttributes(log.String("k6", "MUTATED"), log.String("k0", "MUTATED"))
@@ -358,10 +360,10 @@ func runOnce(c Case) ([]vk.Violation, map[string]bool) {
 	emits := make([]emitRec, total)
 	var cmu sync.Mutex
 	var calls []*callRec
-	doEmit := func(id, producer, phase int, mutate bool) {
+	doEmit := func(id, producer, phase int, mutate bool, ctxKind int) {
 		emits[id].producer, emits[id].phase = producer, phase
 		emits[id].start = clock.Tick()
-		emit(id, mutate)
+		emit(id, mutate, ctxKind)
 		emits[id].end = clock.Tick()
 		emits[id].done = true
 	}
@@ -388,7 +390,7 @@ func runOnce(c Case) ([]vk.Violation, map[string]bool) {
 				vk.Perturb(op.P)
 				switch op.K {
 				case "emit":
-					doEmit(ids[slot{pi, g, i}], pi*100+g, pi, op.M)
+					doEmit(ids[slot{pi, g, i}], pi*100+g, pi, op.M, op.C)
 				case "flush":
 					doCall("flush", op.T, pi)
 				case "shutdown":
@@ -416,8 +418,8 @@ func runOnce(c Case) ([]vk.Violation, map[string]bool) {
 	if firstShutdownIssue > lastShutdown.start {
 		firstShutdownIssue = lastShutdown.start
 	}
-	doEmit(nrec, 9999, final+1, false)
-	doEmit(nrec+1, 9999, final+1, true)
+	doEmit(nrec, 9999, final+1, false, 0)
+	doEmit(nrec+1, 9999, final+1, true, 0)
 	doCall("flush", 0, final+1)
 
 	// cleanup only: let a Shutdown whose context expired finish in the background
@@ -663,7 +665,7 @@ func run(c Case) ([]vk.Violation, vk.Info) {
 			all[k] = true
 		}
 	}
-	multi, flushes, overflowPhase := false, 0, false
+	multi, flushes, overflowPhase, doneCtxEmit := false, 0, false, false
 	for _, ph := range c.Phases {
 		producers, n := 0, 0
 		for _, ops := range ph {
@@ -672,6 +674,9 @@ func run(c Case) ([]vk.Violation, vk.Info) {
 				if op.K == "emit" {
 					has = true
 					n++
+					if op.C != 0 {
+						doneCtxEmit = true
+					}
 				}
 				if op.K == "flush" {
 					flushes++
@@ -692,6 +697,7 @@ func run(c Case) ([]vk.Violation, vk.Info) {
 	for k := range all {
 		info.Class(k)
 	}
+	info.ClassIf(doneCtxEmit, "emit_with_cancelled_or_expired_context")
 	info.ClassIf(c.ViaProvider, "via_logger_provider")
 	info.ClassIf(multi, "two_or_more_producers")
 	info.ClassIf(overflowPhase, "phase_emits_more_than_queue")
@@ -708,4 +714,35 @@ func TestLogBatchProcessor(t *testing.T) {
 		Gen: gen, Run: run, Repeat: 100,
 		ShrinkTime: 30 * time.Second,
 	})
+}
+
+// genEmitCtx draws the context an emit op hands to Emit: mostly live, sometimes
+// already cancelled or past its deadline. The statement quantifies over every
+// emitted record; a done context does not un-emit one (the pinned tree
+// processes such records like any other).
+func genEmitCtx(t *rapid.T) int {
+	return rapid.SampledFrom([]int{0, 0, 0, 0, 0, 0, 1, 2}).Draw(t, "emit_ctx")
+}
+
+var (
+	cancelledCtx = func() context.Context {
+		ctx, cancel := context.WithCancel(context.Background())
+		cancel()
+		return ctx
+	}()
+	expiredCtx = func() context.Context {
+		ctx, cancel := context.WithDeadline(context.Background(), time.Unix(1, 0))
+		_ = cancel
+		return ctx
+	}()
+)
+
+func emitCtx(kind int) context.Context {
+	switch kind {
+	case 1:
+		return cancelledCtx
+	case 2:
+		return expiredCtx
+	}
+	return context.Background()
 }
